@@ -556,6 +556,8 @@ def run_sequence(ops):
                     if x[0] != op[2] or x[1] != list(op[3]) or (op[4] is not None and x[2] != op[4]) or (op[5] is not None and x[3] != op[5]):
                         return False
                     for atom, t in zip(x[1], op[6] or []):
+                        if atom not in rows:      # dangling interaction (reported by the presence clause)
+                            return False
                         if any(val is not None and rows[atom][1 + pos] != val for pos, val in enumerate(t)):
                             return False
                     return True
